@@ -173,6 +173,9 @@ func byteSeq(v ssa.Value) (parts []ssa.Value, ok bool) {
 		}
 		return []ssa.Value{x}, true
 	case *ssa.Phi:
+		if parts, ok := loopConcatSeq(x); ok {
+			return parts, true
+		}
 		return nil, false
 	case *ssa.Slice:
 		if n, ok := knownLen(x); ok && n == 0 {
@@ -758,4 +761,83 @@ func pathTakesNonNilEdge(pa core.Path, isErr func(ssa.Value) bool) bool {
 		}
 	}
 	return false
+}
+
+// loopConcatSeq: the accumulator of  for _, part := range parts { acc = append(acc, part...) }  over a variadic argument array
+// built at the (inlined) call site: the parts in order.
+func loopConcatSeq(ph *ssa.Phi) ([]ssa.Value, bool) {
+	if len(ph.Edges) != 2 {
+		return nil, false
+	}
+	var init, step ssa.Value
+	for _, e := range ph.Edges {
+		if call, ok := e.(*ssa.Call); ok {
+			if b, isB := call.Call.Value.(*ssa.Builtin); isB && b.Name() == "append" && len(call.Call.Args) == 2 && call.Call.Args[0] == ssa.Value(ph) {
+				step = e
+				continue
+			}
+		}
+		init = e
+	}
+	if init == nil || step == nil {
+		return nil, false
+	}
+	base, ok := byteSeq(init)
+	if !ok {
+		return nil, false
+	}
+	elem := core.StripConv(step.(*ssa.Call).Call.Args[1])
+	ld, ok := elem.(*ssa.UnOp)
+	if !ok || ld.Op != token.MUL {
+		return nil, false
+	}
+	ia, ok := ld.X.(*ssa.IndexAddr)
+	if !ok {
+		return nil, false
+	}
+	sl, ok := ia.X.(*ssa.Slice)
+	if !ok || sl.Low != nil || sl.High != nil {
+		return nil, false
+	}
+	arr, ok := sl.X.(*ssa.Alloc)
+	if !ok {
+		return nil, false
+	}
+	// the index runs over the whole array: a loop counter (phi) — not a constant
+	if _, isPhi := ia.Index.(*ssa.Phi); !isPhi {
+		if _, isBin := ia.Index.(*ssa.BinOp); !isBin {
+			return nil, false
+		}
+	}
+	at := map[int64]ssa.Value{}
+	for _, r := range *arr.Referrers() {
+		ea, ok := r.(*ssa.IndexAddr)
+		if !ok || ea == ia {
+			continue
+		}
+		k, isK := core.ConstInt(ea.Index)
+		if !isK {
+			return nil, false
+		}
+		for _, rr := range *ea.Referrers() {
+			if st, ok := rr.(*ssa.Store); ok && st.Addr == ssa.Value(ea) {
+				if _, dup := at[k]; dup {
+					return nil, false
+				}
+				at[k] = st.Val
+			}
+		}
+	}
+	out := base
+	for k := int64(0); k < int64(len(at)); k++ {
+		v, ok := at[k]
+		if !ok {
+			return nil, false
+		}
+		out = append(out, v)
+	}
+	if len(at) == 0 {
+		return nil, false
+	}
+	return out, true
 }
